@@ -11,7 +11,42 @@ PROOF_NOTE = ("Trusted: Coq 8.16.1 kernel incl. vm_compute (no native_compute); 
               "which are tied to /repo by reflexivity obligations on regenerated tables and by a differential "
               "correspondence run (sampling, not proof) on every invocation.")
 
+RUN_NOTE = ("Trusted: Coq 8.16.1 kernel incl. vm_compute (no native_compute); no axioms (Print Assumptions of every "
+            "property theorem: Closed under the global context). The theorems are about the Gallina reference semantics "
+            "(coq/RefSem.v); what ties them to /repo is the differential correspondence run on every invocation (sampling, "
+            "not proof): the implementation, the reference semantics and the faithful net model (coq/NetModel.v, a "
+            "transliteration of generator.py / logic.py / scheduler.py that reproduces the implementation's traces "
+            "exactly, including re-entrant completions and the known defects) are run on the same generated programs, "
+            "valuations, completion orders and API histories and compared under the property's projection, and the "
+            "property's executable monitor is applied to the implementation's trace. Trusted besides: the Python harness "
+            "(generators, canonicalisation, scripted execution engine), the printer of cases as Gallina terms.")
+
 CLAIMS = {
+    "C01": dict(
+        text="Theorem C01_reference_semantics / C01_programs (for every program, value oracle, set of immediately "
+             "completed services, fuel and every script of API calls incl. junk, duplicates, premature and late events): "
+             "every trace of the reference semantics satisfies the executable monitor holds_C01 - production task "
+             "finished exactly once, in the call after which nothing is outstanding; running / awaited / final as the "
+             "property states. Proved by an invariant over the state tree (a state that is not complete awaits a "
+             "service). The same monitor is applied to the implementation's traces, which are also compared with both "
+             "models, incl. completions of other services sent from inside notifications. Known findings D7 (parallel-loop "
+             "shapes) and D20 (completion sent from inside a finished notification) are reported as KNOWN-FINDING.",
+        technique="Coq proof (invariant by induction over the mutually recursive interpreter and over the API script) "
+                  "on the reference semantics + differential correspondence with two executable models + monitor on "
+                  "implementation traces",
+        design_ref="DESIGN.md §9 C01", note=RUN_NOTE),
+    "C08": dict(
+        text="Theorems on the API layer of the reference semantics, for all states / histories: a non-awaited completion "
+             "or junk event returns False and leaves the state equal (C08_rejected_completion_changes_nothing, "
+             "C08_junk_changes_nothing); erasing rejected calls from a history leaves all other records equal "
+             "(C08_erase_rejected); an accepted event was awaited; start again is a no-op; once accepted, every later "
+             "report of the same identifier is rejected in every history (C08_accepted_at_most_once, by a NoDup / "
+             "fresh-range invariant lifted through the interpreter with the closure principle). The implementation is "
+             "tied by correspondence (junk kinds, duplicates, unknown ids, events from JSON, re-entrant duplicates) and by "
+             "the monitor holds_C08, which judges acceptance against what was ANNOUNCED, not against the scheduler's own list.",
+        technique="Coq proof (state equalities, induction over scripts, closure principle over the interpreter) + "
+                  "differential correspondence + monitor on implementation traces",
+        design_ref="DESIGN.md §9 C08", note=RUN_NOTE),
     "C13": dict(
         text="Theorem C13_decision_is_truth_value (all expression trees, all valuations over Q/bool/struct values): "
              "whenever ordinary arithmetic/comparison/boolean semantics gives a guard a truth value, the model of "
@@ -21,6 +56,35 @@ CLAIMS = {
         technique="Coq proof (structural induction on expressions) + regenerated operator table obligation + "
                   "differential correspondence on generated expressions",
         design_ref="DESIGN.md §9 C13"),
+    "C14": dict(
+        text="PARTIAL. Proved (C14_unique_partial, all programs / schedules / histories of the reference semantics): no two "
+             "task-started and no two service-started notifications of an order carry the same identifier (identifiers "
+             "come from two counters; consecutive calls draw from disjoint ranges). Not proved: that finished "
+             "notifications and accepted events carry the announced identifier - this is checked by the lifecycle monitor "
+             "holds_C14 on every implementation trace and by the correspondence with both models (test-id mode literally, "
+             "UUID mode after first-occurrence renaming against the reference semantics only).",
+        technique="Coq proof (relational invariant lifted with the closure principle) + differential correspondence in "
+                  "both identifier modes + lifecycle monitor on implementation traces",
+        design_ref="DESIGN.md §9 C14", note=RUN_NOTE),
+    "C17": dict(
+        text="Theorem C17_log_shape (all programs, schedules, attach/detach histories of the reference semantics): the log "
+             "of every call is, notification by notification, the registered functions in order followed by one entry per "
+             "attached observer in attachment order naming the same entity and identifier, the flag exactly on the "
+             "production task's finished notification; with the C01 theorem that notification occurs once and last. The "
+             "PETRI_NET notices and observer order under re-entrant completions are outside the model (checked / exhibited "
+             "on the implementation by the harness and the net model).",
+        technique="Coq proof (log-shape relation lifted with the closure principle) + differential correspondence with "
+                  "attach/detach histories + monitor on implementation traces",
+        design_ref="DESIGN.md §9 C17", note=RUN_NOTE),
+    "C20": dict(
+        text="Theorem C20_log_shape (all programs, schedules, registration histories of the reference semantics): every "
+             "function registered for a kind is invoked exactly once per notification of that kind, in registration order, "
+             "with the same argument; a repeated registration returns False and changes nothing. Tied to the implementation "
+             "by correspondence with up to 3 listeners per kind incl. equal-but-not-identical bound methods and by the "
+             "monitor holds_C20.",
+        technique="Coq proof (log-shape relation lifted with the closure principle) + differential correspondence + "
+                  "monitor on implementation traces",
+        design_ref="DESIGN.md §9 C20", note=RUN_NOTE),
 }
 
 NOT_YET = "check not built yet in this revision (see DESIGN.md §11 staging); will be claimed when its theorem and correspondence slice exist"
